@@ -4,7 +4,9 @@ From Verif.Model Require Import Carrier.
 From Verif.Model Require Lines HttpSse SseLegacy.
 From Verif.Spec Require C11.
 From Verif.Spec Require Import C15.
-From Verif.Proofs Require Carrier.
+From Verif.Proofs Require Carrier CarrierDecode.
+From Verif.Model Require Envelope.
+From Verif.Spec Require C02.
 Open Scope Z_scope.
 
 (** ONE conversation (any list of admissible message texts: single-line JSON
@@ -71,6 +73,35 @@ Theorem C15_legacy_order :
   /\ SseLegacy.final c SseLegacy.SIdle (lconv_events l) = SseLegacy.SIdle.
 Proof. exact Carrier.legacy_conversation_order. Qed.
 Print Assumptions C15_legacy_order.
+
+(** The per-message decoders (the [parse] the theorems above are generic in)
+    differ per carrier in the code: stdio uses [parse_message], legacy SSE
+    [JSONRPCMessage.model_validate], Streamable HTTP the same plus its
+    non-message filter.  On EVERY valid JSON-RPC 2.0 message whose result - if
+    it is a result - is a JSON object, under either validation back end, the
+    three deliver the same view (kind, id with its JSON type, method, params,
+    result, error): exactly what the wire says. *)
+Theorem C15_decoders_agree : forall fb m k,
+  C02.classify (Json.JObj m) = inr k ->
+  (k = Envelope.KRes -> CarrierDecode.result_is_object m) ->
+  CarrierDecode.decode_stdio fb m = C02.view_of_wire (Json.JObj m)
+  /\ CarrierDecode.decode_legacy m = C02.view_of_wire (Json.JObj m)
+  /\ CarrierDecode.decode_http m = C02.view_of_wire (Json.JObj m)
+  /\ C02.view_of_wire (Json.JObj m) <> None.
+Proof. exact CarrierDecode.decoders_agree. Qed.
+Print Assumptions C15_decoders_agree.
+
+(** At full strength - every valid JSON-RPC message, results of any JSON type -
+    the statement is FALSE of the code: the unified message class refuses a
+    result that is not an object, so {"jsonrpc":"2.0","id":1,"result":null} (or 5,
+    or "s", or [..]) is delivered over stdio only (recorded finding; MCP
+    results are objects). *)
+Definition C15_decoders_agree_on_every_valid_message_statement : Prop :=
+  CarrierDecode.decoders_agree_on_every_valid_message.
+Theorem C15_decoders_agree_on_every_valid_message_refuted :
+  ~ C15_decoders_agree_on_every_valid_message_statement.
+Proof. exact CarrierDecode.decoders_agree_on_every_valid_message_refuted. Qed.
+Print Assumptions C15_decoders_agree_on_every_valid_message_refuted.
 
 (** The stream parser the extracted driver runs on long streams (one pass,
     reversed accumulator) computes exactly what the chunk-by-chunk model does. *)
